@@ -6,7 +6,7 @@ Scripts are lists of integers: [nslots, op, x, y, z, op, x, y, z, ...].
 M = 1000000007
 
 OPS = {"NEW": 0, "LINK": 1, "UNLINK": 2, "DROP": 3, "ARR": 4, "ARRSET": 5, "CHURN": 6, "SUM": 7, "GCFULL": 8,
-       "GCMINOR": 9, "STR": 10, "DEEP": 11, "PAIRS": 12, "CLOSURE": 13, "GLOBAL": 14, "SUMALL": 15, "KEEPCHURN": 16, "FILLARR": 17, "REFRESH": 18}
+       "GCMINOR": 9, "STR": 10, "DEEP": 11, "PAIRS": 12, "CLOSURE": 13, "GLOBAL": 14, "SUMALL": 15, "KEEPCHURN": 16, "FILLARR": 17, "REFRESH": 18, "SNAP": 19}
 
 
 class Node:
@@ -115,7 +115,7 @@ class World:
                 self.new_node(y)
         elif op == 7:
             self.out.append("sum %d %d" % (x % ns, self.checksum(self.slots[x % ns])))
-        elif op in (8, 9):
+        elif op in (8, 9, 19):
             pass
         elif op == 10:
             dst = self.slots[x % ns]
@@ -368,3 +368,16 @@ if __name__ == "__main__":
     out, w = run(s)
     print(" ".join(map(str, s)))
     sys.stderr.write(out)
+
+
+def add_snapshots(script, rng):
+    """Insert heap-snapshot operations (swiper only): right after forced collections (the
+    concurrent sweeper may still be running) and at random places."""
+    out = [script[0]]
+    n = (len(script) - 1) // 4
+    for k in range(n):
+        q = script[1 + 4 * k: 5 + 4 * k]
+        out += q
+        if (q[0] in (OPS["GCFULL"], OPS["GCMINOR"]) and rng.random() < 0.5) or rng.random() < 0.03:
+            out += [OPS["SNAP"], 0, 0, 0]
+    return out
